@@ -1,5 +1,5 @@
 """Lazily loaded Programs per build configuration."""
-from . import facts, mir, flow
+from . import facts, mir, flow, roles
 
 _progs = {}
 _writes = {}
@@ -8,6 +8,7 @@ _writes = {}
 def prog(config="K1"):
     if config not in _progs:
         _progs[config] = mir.Program(facts.load(config))
+        roles.apply(_progs[config])
     return _progs[config]
 
 
